@@ -141,7 +141,7 @@ def insert_dups(rng, case, keep, p=0.25):
 def matrices(ctx, thorough):
     """copy-construct / copy-assign / move-construct / move-assign / swap of whole matrices inside the C05 and C09 histories: the model ignores them,
     the harness continues with the new object after mutating (copies) and destroying the source"""
-    pm = pmgen.thorough_cfgs() if thorough else pmgen.QUICK[::3]
+    pm = pmgen.thorough_cfgs() if thorough else pmgen.QUICK[::3] + [c for c in pmgen.QUICK if '_ide_' in c[0] and c[2]['flav'] == 2]    # + identifier-indexed chain matrices (overlay holding a pointer into the matrix)
     bm = C09.thorough_cfgs() if thorough else C09.quick_cfgs()[::3]
     nsan = 6 if thorough else 2
     exes, errs = pmgen.build(ctx, pm)
